@@ -2,6 +2,7 @@ package main
 
 import (
 	"bufio"
+	"bytes"
 	"context"
 	"crypto/rand"
 	"crypto/rsa"
@@ -11,6 +12,7 @@ import (
 	"encoding/json"
 	"encoding/pem"
 	"fmt"
+	"html"
 	"io"
 	"math/big"
 	"net"
@@ -18,7 +20,9 @@ import (
 	"os"
 	"os/exec"
 	"path/filepath"
+	"regexp"
 	"runtime"
+	"sort"
 	"strings"
 	"sync"
 	"syscall"
@@ -50,7 +54,10 @@ type Node struct {
 	up      bool
 	paused  bool
 	exited  chan struct{} // closed when the current incarnation's process is gone
-	started bool          // was started at least once (so -singlenode/-join are not passed again)
+	started bool          // was started at least once on its current -raftdir (so -singlenode/-join are not passed again)
+	// membership as the orchestrator knows it from the leader's /status (never used for a verdict)
+	member  bool
+	removed bool // POST /part for this node succeeded: raft may shut it down, its exit is expected
 }
 
 func (n *Node) state() (up, paused bool, inc int) {
@@ -75,11 +82,17 @@ type Cluster struct {
 	client        *http.Client // short requests
 	stream        *http.Client // long polls (no overall timeout)
 	single        bool
+	bootstrapped  bool
 	safeguardOnce bool // leave the time safeguard on for the first start of joining nodes
 	// foldNs, when set, is passed as -canary_compaction_start: every snapshot then
 	// folds exactly the entries older than (foldNs - session expiration - 10s)
 	// into the serialized server state and deletes them from the stores.
 	foldNs int64
+	// trailingLogs >= 0 is passed as VERIF_TRAILING_LOGS (raft.Config.TrailingLogs, see
+	// checks/c05.py build()): a snapshot then really compacts the raft log, and a node
+	// that needs the compacted entries gets the snapshot by InstallSnapshot.
+	trailingLogs int
+	initial      int // nodes started by Setup; the others join later (schedule steps)
 
 	spawn chan func()
 
@@ -150,8 +163,8 @@ func generateCert(dir string) (certPath, keyPath string, err error) {
 	return certPath, keyPath, nil
 }
 
-func NewCluster(bin, work, out string, rec *Recorder, nnodes int) (*Cluster, error) {
-	c := &Cluster{bin: bin, work: work, out: out, rec: rec, single: nnodes == 1, spawn: make(chan func())}
+func NewCluster(bin, work, out string, rec *Recorder, nnodes int, portBase int) (*Cluster, error) {
+	c := &Cluster{bin: bin, work: work, out: out, rec: rec, single: nnodes == 1, spawn: make(chan func()), trailingLogs: -1, initial: nnodes}
 	var err error
 	c.certPath, c.keyPath, err = generateCert(work)
 	if err != nil {
@@ -174,9 +187,17 @@ func NewCluster(bin, work, out string, rec *Recorder, nnodes int) (*Cluster, err
 	}
 	c.client = &http.Client{Transport: mk()}
 	c.stream = &http.Client{Transport: mk()}
-	ports, err := freePorts(nnodes)
-	if err != nil {
-		return nil, err
+	var ports []int
+	if portBase > 0 {
+		// fixed ports (VERIF_C05_PORT_BASE): for running next to other instances of the check
+		for i := 0; i < nnodes; i++ {
+			ports = append(ports, portBase+i)
+		}
+	} else {
+		ports, err = freePorts(nnodes)
+		if err != nil {
+			return nil, err
+		}
 	}
 	for i := 0; i < nnodes; i++ {
 		n := &Node{id: i + 1, port: ports[i]}
@@ -204,7 +225,12 @@ func (c *Cluster) node(id int) *Node { return c.nodes[id-1] }
 
 // Start starts (or restarts) node id. The "start" event is logged BEFORE the
 // process exists, so it precedes every event of the new incarnation.
-func (c *Cluster) Start(id int) error {
+func (c *Cluster) Start(id int) error { return c.StartVia(id, 0) }
+
+// StartVia starts node id; when its -raftdir is fresh, node 1 of a new network is
+// started with -singlenode and every other node with -join=<address of node via>
+// (0: node 1).
+func (c *Cluster) StartVia(id int, via int) error {
 	n := c.node(id)
 	n.mu.Lock()
 	if n.up {
@@ -234,10 +260,14 @@ func (c *Cluster) Start(id int) error {
 		args = append(args, fmt.Sprintf("-canary_compaction_start=%d", c.foldNs))
 	}
 	if first {
-		if id == 1 {
+		if id == 1 && !c.bootstrapped {
 			args = append(args, "-singlenode")
+			c.bootstrapped = true
 		} else {
-			args = append(args, "-join="+c.node(1).addr)
+			if via == 0 || via == id {
+				via = 1
+			}
+			args = append(args, "-join="+c.node(via).addr)
 		}
 	}
 	trace := filepath.Join(c.out, fmt.Sprintf("node%d.inc%d.ndjson", id, inc))
@@ -246,8 +276,11 @@ func (c *Cluster) Start(id int) error {
 		"VERIF_TRACE="+trace,
 		"VERIF_GATE_DIR="+n.gateDir,
 		"GOMAXPROCS=4")
-	if c.single {
+	if c.single || c.initial == 1 {
 		env = append(env, "VERIF_ALLOW_SINGLE_RESTART=1")
+	}
+	if c.trailingLogs >= 0 {
+		env = append(env, fmt.Sprintf("VERIF_TRAILING_LOGS=%d", c.trailingLogs))
 	}
 	if err := os.MkdirAll(n.dir, 0700); err != nil {
 		return err
@@ -282,6 +315,7 @@ func (c *Cluster) Start(id int) error {
 		logf.Close()
 		n.mu.Lock()
 		wasUp := n.up && n.inc == inc
+		removed := n.removed
 		if wasUp {
 			n.up = false
 			n.paused = false
@@ -289,10 +323,15 @@ func (c *Cluster) Start(id int) error {
 		n.mu.Unlock()
 		if wasUp {
 			// nobody asked for this: the process exited on its own
-			c.rec.Log("exited", "n", id, "k", inc, "err", fmt.Sprint(err))
-			c.unexpectedMu.Lock()
-			c.unexpectedExits = append(c.unexpectedExits, fmt.Sprintf("node %d incarnation %d: %v: %s", id, inc, err, c.lastWords(id)))
-			c.unexpectedMu.Unlock()
+			words := c.lastWords(id)
+			c.rec.Log("exited", "n", id, "k", inc, "err", fmt.Sprint(err), "removed", removed, "why", words)
+			// a node that was removed from the network terminates itself (raft shuts down,
+			// main() logs "Node removed from the network" and exits): expected
+			if !removed || strings.Contains(words, "panic:") || strings.Contains(words, "fatal error:") {
+				c.unexpectedMu.Lock()
+				c.unexpectedExits = append(c.unexpectedExits, fmt.Sprintf("node %d incarnation %d: %v: %s", id, inc, err, words))
+				c.unexpectedMu.Unlock()
+			}
 		}
 		close(exited)
 	}()
@@ -508,4 +547,158 @@ func (c *Cluster) lastApplied(id int) uint64 {
 		}
 	}
 	return max
+}
+
+// ---------------------------------------------------------------- membership
+
+// Wipe removes node id's data ("kill the robustirc process on that node and remove
+// the data", cmd/robustirc-removepeer); the node must be down. Its next start joins.
+func (c *Cluster) Wipe(id int) {
+	n := c.node(id)
+	os.RemoveAll(n.dir)
+	n.mu.Lock()
+	n.started = false
+	n.removed = false
+	n.mu.Unlock()
+	c.rec.Log("wiped", "n", id)
+}
+
+type nodeStatus struct {
+	State        string
+	Leader       string
+	Peers        []string
+	AppliedIndex uint64
+	CommitIndex  uint64
+}
+
+// status reads the machine-readable /status of node id (what robustirc-removepeer and
+// robustirc-rollingrestart read): raft state, leader, latest configuration, indexes.
+func (c *Cluster) status(id int, timeout time.Duration) (*nodeStatus, error) {
+	ctx, cancel := context.WithTimeout(context.Background(), timeout)
+	defer cancel()
+	req, err := http.NewRequestWithContext(ctx, "GET", "https://"+c.node(id).addr+"/status", nil)
+	if err != nil {
+		return nil, err
+	}
+	req.SetBasicAuth("robustirc", networkPassword)
+	req.Header.Set("Accept", "application/json")
+	resp, err := c.client.Do(req)
+	if err != nil {
+		return nil, err
+	}
+	defer resp.Body.Close()
+	b, _ := io.ReadAll(io.LimitReader(resp.Body, 1<<20))
+	if resp.StatusCode != 200 {
+		return nil, fmt.Errorf("HTTP %d: %s", resp.StatusCode, strings.TrimSpace(string(b)))
+	}
+	var st nodeStatus
+	if err := json.Unmarshal(b, &st); err != nil {
+		return nil, err
+	}
+	return &st, nil
+}
+
+// peerIds maps the addresses of a configuration to node numbers (sorted; an unknown
+// address becomes 0).
+func (c *Cluster) peerIds(addrs []string) []int {
+	var ids []int
+	for _, a := range addrs {
+		id := 0
+		for _, n := range c.nodes {
+			if n.addr == a {
+				id = n.id
+			}
+		}
+		ids = append(ids, id)
+	}
+	sort.Ints(ids)
+	return ids
+}
+
+// Peers returns the latest configuration as the current leader reports it.
+func (c *Cluster) Peers() (leader int, peers []int, ok bool) {
+	l := c.Leader()
+	if l == 0 {
+		return 0, nil, false
+	}
+	st, err := c.status(l, 2*time.Second)
+	if err != nil || st.State != "Leader" {
+		return 0, nil, false
+	}
+	return l, c.peerIds(st.Peers), true
+}
+
+func contains(xs []int, x int) bool {
+	for _, v := range xs {
+		if v == x {
+			return true
+		}
+	}
+	return false
+}
+
+// setMembers records the orchestrator's knowledge of the configuration.
+func (c *Cluster) setMembers(peers []int) {
+	for _, n := range c.nodes {
+		n.mu.Lock()
+		n.member = contains(peers, n.id)
+		n.mu.Unlock()
+	}
+}
+
+func (n *Node) isMember() bool {
+	n.mu.Lock()
+	defer n.mu.Unlock()
+	return n.member
+}
+
+// postPrivate sends a POST with the network password (what robustirc -join and
+// robustirc-removepeer do).
+func (c *Cluster) postPrivate(id int, path string, body []byte, timeout time.Duration) (int, string, error) {
+	ctx, cancel := context.WithTimeout(context.Background(), timeout)
+	defer cancel()
+	req, err := http.NewRequestWithContext(ctx, "POST", "https://"+c.node(id).addr+path, bytes.NewReader(body))
+	if err != nil {
+		return 0, "", err
+	}
+	req.SetBasicAuth("robustirc", networkPassword)
+	req.Header.Set("Content-Type", "application/json")
+	resp, err := c.client.Do(req)
+	if err != nil {
+		return 0, "", err
+	}
+	defer resp.Body.Close()
+	b, _ := io.ReadAll(io.LimitReader(resp.Body, 1<<16))
+	return resp.StatusCode, strings.TrimSpace(string(b)), nil
+}
+
+var preRe = regexp.MustCompile(`(?s)<pre>(.*?)</pre>`)
+
+// serverState reads /status/state of node id: the text form of IRCServer.Marshal(),
+// i.e. the node's complete replicated state as the code itself serialises it.
+func (c *Cluster) serverState(id int) (string, error) {
+	code, body, err := c.privateGet(id, "/status/state", 10*time.Second)
+	if err != nil {
+		return "", err
+	}
+	if code != 200 {
+		return "", fmt.Errorf("HTTP %d", code)
+	}
+	m := preRe.FindStringSubmatch(body)
+	if m == nil {
+		return "", fmt.Errorf("no <pre> in /status/state")
+	}
+	return html.UnescapeString(strings.TrimSpace(m[1])), nil
+}
+
+// restoredCount counts the fsm.restored records in the hook trace of node id's current
+// incarnation (FSM.Restore returned): for a node that started on an empty -raftdir
+// every one of them is an InstallSnapshot.
+func (c *Cluster) restoredCount(id int) int {
+	_, _, inc := c.node(id).state()
+	b, err := os.ReadFile(filepath.Join(c.out, fmt.Sprintf("node%d.inc%d.ndjson", id, inc)))
+	if err != nil {
+		return 0
+	}
+	return strings.Count(string(b), `"point":"fsm.restored"`)
 }
